@@ -339,6 +339,18 @@ func (s *Sched) TraceString() string {
 	return b.String()
 }
 
+// TraceMenus renders the schedule with the menu of every decision (diagnostics).
+func (s *Sched) TraceMenus() string {
+	var b bytes.Buffer
+	for i, c := range s.Trace {
+		if i > 0 {
+			b.WriteByte(' ')
+		}
+		fmt.Fprintf(&b, "%d:%s%v", c.Tid, c.Point, s.Menus[i])
+	}
+	return b.String()
+}
+
 // Tid returns the logical thread id of the calling goroutine (-1 if unknown).
 func (s *Sched) Tid() int {
 	g := goid()
